@@ -216,7 +216,8 @@ def judge_3d(case, rec):
 # ------------------------------------------------------------------ multi-cube sets
 @st.composite
 def case_set_st(draw):
-    kind = draw(st.sampled_from(["tabbook", "tabbook", "ca0", "ca0", "numeric"]))
+    kind = draw(st.sampled_from(["tabbook", "tabbook", "ca0", "ca0", "numeric", "single",
+                                 "single"]))
     n = draw(scen.S.n_st(20))
     weights = draw(scen.S.weights_st(n, ("none", "int", "dyadic")))
     svars = {}
@@ -230,6 +231,20 @@ def case_set_st(draw):
             svars[alias] = draw(scen.S.cat_var_st(alias, n, max_valid=4,
                                                   allow_order_key=False))
         col_aliases.append(alias)
+    if kind == "single":
+        # a cube set holding ONE response must behave exactly like the cube itself
+        which = draw(st.sampled_from(["ca", "ca3", "cat", "mr"]))
+        if which in ("ca", "ca3"):
+            svars["r"] = draw(scen.S.ca_var_st("r", n, max_items=3, max_valid=4))
+        elif which == "cat":
+            svars["r"] = draw(scen.S.cat_var_st("r", n, max_valid=4, allow_order_key=False))
+        else:
+            svars["r"] = draw(scen.S.mr_var_st("r", n, max_items=3))
+        survey = {"n": n, "weights": weights, "vars": svars}
+        weighted = weights is not None and draw(st.booleans())
+        return {"kind": kind, "single": which, "survey": survey, "cols": col_aliases,
+                "weighted": weighted, "shape": [kind], "min_base": draw(st.sampled_from([0, 3])),
+                "population": draw(st.sampled_from([None, 1000]))}
     if kind == "tabbook":
         if draw(st.booleans()):
             svars["r"] = draw(scen.S.cat_var_st("r", n, max_valid=4, allow_order_key=False))
@@ -251,6 +266,30 @@ def judge_set(case, rec):
     kind = case["kind"]
     w = case["weighted"]
     rec.event("kind=" + kind)
+    if kind == "single":
+        ca = [{"var": "r", "part": "items"}, {"var": "r", "part": "cats"}]
+        dims = {"ca": ca, "ca3": ca + [{"var": case["cols"][0]}],
+                "cat": [{"var": "r"}, {"var": case["cols"][0]}],
+                "mr": [{"var": "r"}]}[case["single"]]
+        resp = zz9enc.encode(sv, {"dims": dims, "weighted": w})
+        cs = lib.CubeSet([copy.deepcopy(resp)], [{}], case["population"], case["min_base"])
+        ref_parts = lib.cube(resp, {}, case["population"], case["min_base"]).partitions
+        psets = cs.partition_sets
+        rec.nontrivial()
+        rec.compared()
+        if len(psets) != len(ref_parts) or any(len(ps) != 1 for ps in psets):
+            rec.violation("single-response cube set yields partition sets %r, the cube itself "
+                          "has %d partition(s)" % ([len(ps) for ps in psets], len(ref_parts)),
+                          "single-set-shape")
+            return
+        for k, (ps, ref) in enumerate(zip(psets, ref_parts)):
+            if type(ps[0]) is not type(ref):
+                rec.violation("single-response cube set partition %d is a %s, the cube's is a "
+                              "%s" % (k, type(ps[0]).__name__, type(ref).__name__),
+                              "single-set-type")
+                return
+            compare_parts(ps[0], ref, rec, "single-response set partition %d:" % k)
+        return
     if kind == "numeric":
         m = {"var": "x", "stats": ["mean"], "valid_counts": True}
         qs = [{"dims": [], "weighted": w, "measure": m}] + [
